@@ -156,11 +156,11 @@ var (
 		cipher:    aes.NewCipher,
 	}
 
-	// TripleDES implements 3DES in CBC mode for encryption and decryption
+	// TripleDES implements 3DES (DES-EDE3, 192 bit key) in CBC mode for encryption and decryption
 	TripleDES BlockCipher = CBC{
-		keySize:   8,
+		keySize:   24,
 		algorithm: "http://www.w3.org/2001/04/xmlenc#tripledes-cbc",
-		cipher:    des.NewCipher,
+		cipher:    des.NewTripleDESCipher,
 	}
 )
 
